@@ -479,6 +479,9 @@ func runC15(c *Ctx) {
 	// R2 drain loop: forward only with enough tokens, paired with one pop and the matching decrement
 	var drain *ssa.Function
 	for f := range fns {
+		if isPrivateHelper(f) && !unitExclude[f] {
+			continue
+		}
 		if len(findU(f, func(in ssa.Instruction) bool { return isNICForward(in, T) })) > 0 {
 			if drain != nil && drain != f {
 				drain = nil
@@ -511,7 +514,7 @@ func runC15(c *Ctx) {
 		// the forwarded value: every phi leaf must be a peek() of the filter's queue
 		var pks []*ssa.Call
 		okHead := true
-		for _, lf := range phiLeaves(arg) {
+		for _, lf := range phiLeaves(origin(arg)) {
 			pkc, ok := lf.(*ssa.Call)
 			if !ok || !isQueueCall(pkc, "peek") || !strings.HasPrefix(queueOf(pkc), T+".") {
 				okHead = false
@@ -523,7 +526,7 @@ func runC15(c *Ctx) {
 			o.Fail(fw.Pos(), "the forwarded chunk is not the head returned by peek()")
 		} else {
 			isHead := func(v ssa.Value) bool {
-				if v == arg {
+				if v == arg || sameOrigin(v, arg) {
 					return true
 				}
 				for _, pkc := range pks {
@@ -614,13 +617,13 @@ func runC15(c *Ctx) {
 			}
 			if isQueueCall(in, "pop") {
 				o.Site(in.Pos(), "pop in %s", fname(f))
-				if f != drain {
+				if !isIn(f, drain) {
 					o.Fail(in.Pos(), "the filter's queue is popped in %s", fname(f))
 				}
 			}
 			if isQueueCall(in, "push") {
 				o.Site(in.Pos(), "push in %s", fname(f))
-				if f != run {
+				if !isIn(f, run) {
 					o.Fail(in.Pos(), "the filter's queue is fed from %s", fname(f))
 				}
 			}
